@@ -18,7 +18,7 @@ CHECKS = {
             "DESIGN.md §4 C02", "E1-stateless"),
     "C03": ("exploration",
             "bounded exhaustive enumeration of (access lists x protocol x client address x ClientID x name) through the real pre-request hook and pipeline, against a set-theoretic access model; loopback conformance of the drop contract",
-            "Every disjoint allowed/disallowed pair of subsets (size <=2, thorough <=3) of 12 list items (incl. an upper-case ClientID and a link-local address without zone) x 6 protocols x 9 addresses (in/out of each CIDR, zoned, 4-in-6) x 4 ClientID labels, the lists being the start-up configuration, set through POST /control/access/set, or set that way and followed by Server.Reconfigure; 8 blocked-host pattern sets x names x qtypes (and class CH) x protocols. Excluded => dropped (UDP/DNSCrypt) or REFUSED echoing the request, with no upstream call, log entry or statistics update; admitted => served. DoH requests through the real HTTP entry point: 5 list configurations x 4 trusted-proxy sets x 5 peers x proxy headers (4 kinds x 3 addresses): the client is the peer, or the header address iff the peer is a trusted proxy. The plain-error=silence contract of dnsproxy is validated by real UDP/TCP exchanges on 127.0.0.1.",
+            "Every disjoint allowed/disallowed pair of subsets (size <=2, thorough <=3) of 12 list items (incl. an upper-case ClientID and a link-local address without zone) x 6 protocols x 9 addresses (in/out of each CIDR, zoned, 4-in-6) x 4 ClientID labels, the lists being the start-up configuration, set through POST /control/access/set, or set that way and followed by Server.Reconfigure; 10 blocked-host pattern sets (incl. entries written with capital letters) x names x qtypes (and class CH) x protocols. Excluded => dropped (UDP/DNSCrypt) or REFUSED echoing the request, with no upstream call, log entry or statistics update; admitted => served. DoH requests through the real HTTP entry point: 5 list configurations x 4 trusted-proxy sets x 5 peers x proxy headers (4 kinds x 3 addresses): the client is the peer, or the header address iff the peer is a trusted proxy. The plain-error=silence contract of dnsproxy is validated by real UDP/TCP exchanges on 127.0.0.1.",
             "blocked-host matching delegated to urlfilter; 4-in-6 addresses whose two readings differ are not judged.",
             "DESIGN.md §4 C03", "E1-stateless"),
     "C04": ("model_checking",
@@ -28,47 +28,47 @@ CHECKS = {
             "DESIGN.md §4 C04", "E1-BFS"),
     "C05": ("model_checking",
             "stateless preemption-bounded exhaustive exploration of interleavings under a cooperative scheduler hooked into sync/atomic (E2), plus a free-running race-detector pass over the same exhaustively enumerated scenario matrix (E4)",
-            "Scenario matrix: 5 request bodies x 40 admin/background bodies (incl. the DHCP static-lease handlers, a DHCP client's DISCOVER+REQUEST and a request answered from the lease table) (with scheduling points after lock releases), every background body x every admin body, three-party scenarios around the list refresh, read x write admin pairs on the query log and the statistics (thorough: + request x background x admin triples), a deterministic probe that what the client storage hands out is not changed by later updates, and a phase that queues several set_rules calls behind a held engine-rebuild worker and demands the last one's engine (the sequential history phases on the same assembly belong to C01), on a full assembly wired as in package home (server, filter with file lists, client storage, a real DHCP server, query log, statistics on bbolt). E2 owns every Mutex/RWMutex(writer preference)/WaitGroup/Once/atomic operation of the rewritten AGH packages and bbolt and explores all schedules with <=1 (quick) / <=2 (thorough) preemptions: no panic, deadlock or livelock, well-formed response, operations succeed. E4 runs every scenario in both start orders with staggered starts under -race.",
+            "Scenario matrix: 5 request bodies x 41 admin/background bodies (incl. the DHCP static-lease handlers, a DHCP client's DISCOVER+REQUEST, a request answered from the lease table, and the flush a recorded query starts when it fills the buffer) (with scheduling points after lock releases), every background body x every admin body, three-party scenarios around the list refresh, read x write admin pairs on the query log and the statistics (thorough: + request x background x admin triples), a deterministic probe that what the client storage hands out is not changed by later updates, and a phase that queues several set_rules calls behind a held engine-rebuild worker and demands the last one's engine (the sequential history phases on the same assembly belong to C01), on a full assembly wired as in package home (server, filter with file lists, client storage, a real DHCP server, query log, statistics on bbolt). E2 owns every Mutex/RWMutex(writer preference)/WaitGroup/Once/atomic operation of the rewritten AGH packages and bbolt and explores all schedules with <=1 (quick) / <=2 (thorough) preemptions: no panic, deadlock or livelock, well-formed response, operations succeed, no flush left marked pending, and a request for a blocked name is not forwarded while any of 31 operations runs that leave it blocked before and after. E4 runs every scenario in both start orders with staggered starts under -race.",
             "data races are decided by the race detector's happens-before analysis of observed free runs (order-dependent), not by schedule enumeration; goroutines the code spawns itself are replaced by explicit bodies; DHCPv6 operations, dhcp/set_config and restart-type DNS settings are not in the matrix.",
             "DESIGN.md §2.3, §2.4, §4 C05", "E2+E4"),
     "C06": ("exploration",
             "bounded exhaustive enumeration of ordered rewrite tables x queries through the real filter (and the real server for the wire level) against an independent resolver written from AGHTechDoc, with all-permutations and watchdog termination oracles",
-            "All ordered tables of <=3 entries over 81 (pattern, answer) pairs plus <=3 over a 24-entry sub-alphabet with an IPv4-mapped IPv6 value and <=4 over a 35-entry sub-alphabet (thorough: <=4 / <=5) x 11 names (incl. two that end like a wildcard's base without the label boundary) x A/AAAA/TXT through filtering.New + CheckHost; every permutation of a table must resolve identically (except documented ties); each call under a 5 s watchdog. Wire level (each table built from the configuration in two orders and once through PUT /control/rewrite/update): real dnsforward server with a recording upstream answering with records, NODATA and NXDOMAIN: CNAME first, original question restored, upstream asked only for the canonical name, matched-without-value => empty NOERROR and no upstream call.",
+            "All ordered tables of <=3 entries over 81 (pattern, answer) pairs plus <=3 over a 24-entry sub-alphabet with an IPv4-mapped IPv6 value and <=4 over a 35-entry sub-alphabet (thorough: <=4 / <=5) x 11 names (incl. two that end like a wildcard's base without the label boundary) x A/AAAA/TXT through filtering.New + CheckHost, plus curated tables incl. acyclic CNAME chains of 18 and 40 links; every permutation of a table must resolve identically (except documented ties); each call under a 5 s watchdog. Wire level (each table built from the configuration in two orders and once through PUT /control/rewrite/update): real dnsforward server with a recording upstream answering with records, NODATA and NXDOMAIN: CNAME first, original question restored, upstream asked only for the canonical name, matched-without-value => empty NOERROR and no upstream call.",
             "several CNAME targets or several values for one and the same wildcard pattern are ties (either may win, order dependence not flagged); exact-over-wildcard shadowing among address entries accepted per kind or per family.",
             "DESIGN.md §4 C06", "E1-stateless"),
     "C07": ("model_checking",
-            "explicit-state BFS over record/flush/rotate/clear/read/config/restart histories on the real query log (three-list reference, full API comparison and paging walks in every state), plus exhaustive enumeration of search-parameter combinations on fixed layouts",
+            "explicit-state BFS over record/flush/rotate/clear/read/config/restart histories on the real query log (three-list reference, full API comparison and paging walks in every state), plus exhaustive enumeration of search-parameter combinations on fixed layouts (incl. 8 KiB lines and one unknown ClientID from two clients)",
             "Phase A: histories of depth 5 (quick) / 6-7 (thorough) over 4-6 entry kinds, flush, rotate, clear, API read, restart, logging and anonymisation toggles x 5 (memory size, file) configurations; after every transition the unfiltered API result equals reverse(rotated ++ current ++ memory) on 20 fields, every stored line survives decode+re-encode, and cursor and offset paging with limit 1 and 2 partition the sequence. Phase B: 13-15 layouts x limits x offsets x older_than x search terms x statuses against independent predicates; malformed values never panic; quickMatch over-approximates the full match. Phase C: logs longer than the 50 000-record scan window of one request, paged by offset (explicit offset=0 included) and by cursor.",
             "the async memory-to-disk flush is awaited after every operation (records during a pending flush are excluded by the statement); older_than values that were not returned by the API are checked for soundness only; anonymisation is applied at read time with the current setting.",
             "DESIGN.md §4 C07", "E1-BFS"),
     "C08": ("exploration",
             "bounded exhaustive enumeration of (ignore lists x anonymisation x client kind x flags x request) through the real pipeline with the real query log and statistics wired as in package home; every storage and reporting surface read after each request",
-            "13 ignore-list pairs x anonymisation off/on/switched on by API x 6 persistent-client kinds (IP, CIDR, MAC, ClientID, zoned link-local IPv6) x ignore flags x ANY-refusal, each x 51 requests (name spellings, IPv4/IPv6/4-in-6/zoned sources, with/without ClientID); after every request the memory buffer (API), the flushed file, the API over the file and /control/stats are inspected and cleared. Restart scenarios and a memory-buffer scenario (ignore list changed through the API, client flag set later) check that the API hides entries recorded earlier whose name/client is ignored now, including several ClientID clients behind one address.",
+            "13 ignore-list pairs x anonymisation off/on/switched on by API x 6 persistent-client kinds (IP, CIDR, MAC, ClientID, zoned link-local IPv6) x ignore flags x ANY-refusal, each x 51 requests (name spellings, IPv4/IPv6/4-in-6/zoned sources, with/without ClientID); after every request the memory buffer (API), the flushed file, the API over the file and /control/stats are inspected and cleared. The settings handed to the configuration writer after the ignore lists are changed through the API, the client ignore flags set through POST /control/clients/update, restart scenarios and a memory-buffer scenario (ignore list changed through the API, client flag set later) check that the API hides entries recorded earlier whose name/client is ignored now, including several ClientID clients behind one address.",
             "ignore-rule matching delegated to urlfilter; a 4-in-6 source is the same client as its IPv4 form; client-flag hiding is judged with anonymisation off (anonymised entries cannot be attributed).",
             "DESIGN.md §4 C08", "E1-stateless"),
     "C09": ("model_checking",
             "explicit-state BFS over update/advance/flush/restart/limit/clear/read histories on the real StatsCtx (bbolt) against an hour->counters reference, plus preemption-bounded exhaustive schedule exploration of Update || flush || API read || reset under the cooperative scheduler",
-            "Histories of depth 5 (quick) / 7 (thorough) over 21 operations (5 result categories, 2 clients, 2 domains, hour advances by 1, 2, L-1, L, L+1, flush, clean restart, retention limits 1/2/3/24/192 h through both handlers, switching statistics off, clear); after every transition GET /control/stats is compared with the reference (totals, hourly series per hour, daily series <= totals, window). Schedules: 12 thread sets (update, other update, hour rollover + flush, API read, reset, clean shutdown followed by a reopen) x {0,2} earlier updates, all interleavings at lock/atomic operations and lock releases of stats and bbolt with <=1 (quick) / <=2 (thorough) preemptions; every response internally consistent, never below the count completed before the threads started, every update counted exactly once after quiescence, and no iteration of the flusher ends its loop while the statistics are open.",
+            "Histories of depth 5 (quick) / 7 (thorough) over 21 operations (5 result categories, 2 clients, 2 domains, hour advances by 1, 2, L-1, L, L+1, flush, clean restart, retention limits 1/2/3/24/192 h through both handlers, switching statistics off, clear); after every transition GET /control/stats is compared with the reference (totals, hourly series per hour, daily series <= totals, window). Schedules: 14 thread sets (update, other update, hour rollover + flush, API read, reset, switching off through the legacy endpoint, clean shutdown followed by a reopen) x {0,2} earlier updates, all interleavings at lock/atomic operations and lock releases of stats and bbolt with <=1 (quick) / <=2 (thorough) preemptions; every response internally consistent, never below the count completed before the threads started, every update counted exactly once after quiescence, and no iteration of the flusher ends its loop while the statistics are open.",
             "hours that lay outside the window at some moment may legitimately have been deleted (0 or full count accepted); a read refused with HTTP 500 while a reset replaces the database is accepted; top_* lists are not compared.",
             "DESIGN.md §4 C09", "E1-BFS+E2"),
     "C10": ("model_checking",
             "explicit-state breadth-first search over DHCP message / static-lease / expiry / restart histories executed on the real v4Server with the real database wiring, level-synchronous across 16 processes with global state deduplication, lease-table invariants and a tiny allocator reference model",
-            "Subnet /29 with a 3-address pool, 3 clients (thorough: 4 clients, hostnames, requested addresses), 95 operations (DHCP switched off in the configuration (only the lease API is then used), DISCOVER, REQUEST selecting/init-reboot/renew, DECLINE, RELEASE, static add/update/remove inside/outside pool/gateway/out of subnet, 2 h clock advance, restart), depth 4 (quick) / 6 (thorough); after every transition: one lease per address and client, dynamic leases inside the pool, list = hostname index = IP index = bitset, every OFFER/ACK against the model, leases.json = memory, restart preserves table and DNS answers; every state is also probed with a DISCOVER from a new client (offer iff a pool address is free).",
+            "Subnet /29 with a 3-address pool, 3 clients (thorough: 4 clients, hostnames, requested addresses), 95 operations (DHCP switched off in the configuration (only the lease API is then used), DISCOVER, REQUEST selecting/init-reboot/renew, DECLINE, RELEASE, static add/update/remove inside/outside pool/gateway/out of subnet, 2 h clock advance, restart), depth 4 (quick) / 6 (thorough); after every transition: one lease per address and client, dynamic leases inside the pool, list = hostname index = IP index = bitset, every OFFER/ACK against the model, leases.json = memory, restart preserves table and DNS answers; every state is also probed with a DISCOVER from a new client (offer iff a pool address is free); configurations with the gateway on the first / last pool address are refused or never hand the gateway out.",
             "a static add legitimately revokes dynamic leases of the same client or address (documented dnsmasq-like behaviour); ICMP probing off; virtual clock.",
             "DESIGN.md §4 C10", "E1-BFS"),
     "C11": ("exploration",
             "exhaustive enumeration of request shapes against every pattern of the real mux built by the real registration code in the real start-up order, plus a go/ast inventory of all registrations",
-            "Both registration orders (boot: DHCP routes before the user list exists; install wizard), every pattern (79/83) x path spellings x 7 methods x content types x bodies (incl. chunked without length) x 6 credential kinds; without valid credentials the response is 403/redirect, the probe/handler did not run and config, sessions, users and work-dir files are byte-identical; with credentials wrong method => 405 and non-JSON body => 415; expired sessions are not revived. Static part: every Handle/HandleFunc/httpRegister call in the shipped packages is in the mux, wrapped, and public only if in the fixed public set.",
+            "Both registration orders (boot: DHCP routes before the user list exists; install wizard), every pattern (79/83) x path spellings x 7 methods x content types x bodies (incl. chunked without length) x 6 credential kinds; without valid credentials the response is 403/redirect, the probe/handler did not run and config, sessions, users and work-dir files are byte-identical; with credentials wrong method => 405 and non-JSON body => 415; expired sessions are not revived; a start with a stored password that is not a bcrypt hash refuses every credential and the login call. Static part: every Handle/HandleFunc/httpRegister call in the shipped packages is in the mux, wrapped, and public only if in the fixed public set.",
             "handler-ran for in-home routes is inferred from the status code; initDNS/initContextClients are mirrored step by step by the hook (their callback arguments are covered statically).",
             "DESIGN.md §4 C11", "E1-stateless"),
     "C12": ("model_checking",
             "explicit-state BFS over timed login/request/logout/clock-advance/restart histories on the real auth handlers under a virtual clock against a throttle automaton and two-sided session bounds, plus preemption-bounded schedule exploration of request || logout || clock tick followed by a restart",
-            "Three BFS passes plus two stateless throttling enumerations (attempts inside the last second of a block period; 20-2500 other addresses failing while one address is blocked): throttle only (10 operations, all 6 (maxAttempts, blockDur) configurations, depth 8 quick / 11 thorough), sessions (13 operations incl. a request with another spelling of the token and a logout carrying a second unknown cookie, TTL 1 h and 3 d, depth 6 / 9), cross (17 operations, depth 4 / 5); clock steps straddle every boundary by +-1 s; two addresses that are trusted proxies and send spoofed proxy headers; while blocked every login is 429 with Retry-After and creates no session; tokens authenticate before created+TTL and never after logout, expiry or having been seen expired, also across restart (session file); an unexpired session is in memory and in the file with one expiry. Schedules: request, logout and a midnight-crossing clock tick in all interleavings (<=1-2 preemptions, release points), then restart: a logged-out token never authenticates.",
+            "Three BFS passes plus two stateless throttling enumerations (attempts inside the last second of a block period; 20-2500 other addresses failing while one address is blocked): throttle only (10 operations, all 6 (maxAttempts, blockDur) configurations, depth 8 quick / 11 thorough), sessions (13 operations incl. a request with another spelling of the token and a logout carrying a second unknown cookie, TTL 1 h and 3 d, depth 6 / 9), cross (17 operations, depth 4 / 5); clock steps straddle every boundary by +-1 s; two addresses that are trusted proxies and send spoofed proxy headers; while blocked every login is 429 with Retry-After and creates no session; tokens authenticate before created+TTL and never after logout, expiry or having been seen expired, also across restart (session file); an unexpired session is in memory and in the file with one expiry. Schedules: request, logout and a midnight-crossing clock tick in all interleavings (<=1-2 preemptions, release points), then restart: a logged-out token never authenticates; three concurrent failed logins from one address block it.",
             "the throttle table is emptied by a restart (the statement does not cover throttling across restarts); Retry-After only checked for presence and range; exact-boundary instants are not judged.",
             "DESIGN.md §4 C12", "E1-BFS+E2"),
     "C13": ("exploration",
             "deviation-bounded exhaustive enumeration of documents (base x key path x shape, 0/1/2 deviations) x every split point, against outcome/idempotence/path-independence/loader oracles",
-            "Golden inputs of every schema version plus minimal and raw documents; every key path present plus every string literal of later steps placed under root and top-level objects, replaced by 10 shapes (incl. a whole number spelled as a float) (1 deviation in quick, pairs in thorough); list-duplication variants; each migrated in one run and through every split point; no panic, error=>unchanged, stamped, idempotent, split-independent, unrelated key kept, loader accepts valid inputs.",
+            "Golden inputs of every schema version plus minimal and raw documents (byte order marks, version stamps outside the range; no error => current stamp, nothing upgraded => input bytes); every key path present plus every string literal of later steps placed under root and top-level objects, replaced by 10 shapes (incl. a whole number spelled as a float) (1 deviation in quick, pairs in thorough); list-duplication variants; each migrated in one run and through every split point; no panic, error=>unchanged, stamped, idempotent, split-independent, unrelated key kept, loader accepts valid inputs.",
             "yaml.v3 round trip is faithful; validity under a document's own schema assumed only for golden inputs and their list-duplication variants; bcrypt hashes (random salt) compared as equal.",
             "DESIGN.md §4 C13", "E1-stateless"),
     "C19": ("model_checking",
@@ -78,17 +78,17 @@ CHECKS = {
             "DESIGN.md §4 C19", "E1-BFS"),
     "C20": ("exploration",
             "bounded exhaustive enumeration of file layouts on a scaled-constant build and a byte-by-byte boundary sweep on the real-constant build, reversed-lines and seek-classification oracles",
-            "Scaled build (maxEntrySize 64 / buffer 6400 substituted in a freshly copied qlogfile.go): every file of 0..5 (quick) / 0..7 (thorough) tail lines over 4 lengths x 5 filler prefixes x 3 gap patterns; every present and absent seek target on a reused reader object; rotated+current pairs at every split; every history of <=3 operations (rewind, read 1/3, seek to first/last entry of each file, absent seeks) on one reader against a cursor reference. Real build: 1.6 MB / 3.2 MB files with the tail length swept byte by byte so buffer boundaries visit every offset in a line, and one file of 2.3 million records (265 stored and 3 absent targets).",
+            "Scaled build (maxEntrySize 64 / buffer 6400 substituted in a freshly copied qlogfile.go): every file of 0..5 (quick) / 0..7 (thorough) tail lines over 4 lengths x 5 filler prefixes x 3 gap patterns; every present and absent seek target on a reused reader object; rotated+current pairs at every split; every history of <=3 operations (rewind, read 1/3, seek to first/last entry of each file, absent seeks) on one reader against a cursor reference, incl. whether a seek is reported as an exact hit. Real build: 1.6 MB / 3.2 MB files with the tail length swept byte by byte so buffer boundaries visit every offset in a line, and one file of 2.3 million records (265 stored and 3 absent targets).",
             "the scaled build differs from the shipped source only in one constant; real-constant coverage is the boundary sweep, not all files; lines+newline < maxEntrySize.",
             "DESIGN.md §4 C20", "E1-stateless"),
     "C14": ("fault_enumeration",
             "exhaustive enumeration of crash points (plus a free-running race-detector pass over two concurrent configuration saves): a real SIGKILL (strace fault injection) at every file-system call of every save, plus explicit-state exploration of a power-loss model over the recorded syscall log (prefix x surviving unsynced data x lost trailing renames x torn writes), the model validated against every real kill",
-            "116 scenarios (quick): real config.write, the loader's schema-upgrade rewrite, dhcpd dbStore, filter refresh (successful and failing mid-download), set_url (download succeeds / breaks), a refresh whose new version holds an over-long line, and for each of the three writers saves that fail because no file may grow beyond half / all but one byte of its size (RLIMIT_FSIZE) x sizes {min, 4095, 4096, 4097, 1 MiB; thorough + 32 MiB} x destination present/absent x temp-file placement, two successive saves each. Every kill point leaves the destination byte-equal to the complete old or new version; every modelled crash state (prefix, surviving data operations since the last fsync, lost trailing namespace operations, write torn at 6 offsets) satisfies the same; a failed save (broken download, write fault) leaves the old version at every such point and afterwards.",
+            "108 scenarios (quick): real config.write, the loader's schema-upgrade rewrite, dhcpd dbStore, filter refresh (successful and failing mid-download), set_url (download succeeds / breaks), a refresh whose new version holds an over-long line, a start on a database with IPv4 and IPv6 reservations (the file must stay byte for byte), and for each of the three writers saves that fail because no file may grow beyond half / all but one byte of its size (RLIMIT_FSIZE) x sizes {min, 4095, 4096, 4097, 1 MiB; thorough + 32 MiB} x destination present/absent x temp-file placement, two successive saves each. Every kill point leaves the destination byte-equal to the complete old or new version; every modelled crash state (prefix, surviving data operations since the last fsync, lost trailing namespace operations, write torn at 6 offsets) satisfies the same; a failed save (broken download, write fault) leaves the old version at every such point and afterwards.",
             "real kills land on syscall boundaries; torn writes and lost unsynced data exist only in the log model, which assumes rename atomicity and ordered metadata; atomicity (old or new), not durability, is demanded.",
             "DESIGN.md §2.5, §4 C14", "E3"),
     "C15": ("fault_enumeration",
             "explicit-state BFS over sequences of scripted list-server answers (faults at every body-offset class) on the real DNSFilter refresh paths, plus exhaustive enumeration of list texts through the real parser with a fixed-point oracle",
-            "Sequences of depth 3 (quick) / 4 (thorough) of forced block/allow refreshes x 16 answers (200 L1/L2/same/empty, connection error, 404, 500, 204, 206, body cut before the first byte / mid-line / at a line boundary / after the last line, HTML, NUL on line 1 / line N), scheduled refreshes 25 h / 1 h later x answer pairs, local-file changes and restart, on one HTTP block list, one local-file block list and one HTTP allow list; after every step file bytes, inode, rules_count and CheckHost verdicts of 13 probes are compared with the model and the stored file is re-parsed. A list of more than 64 MiB is refreshed and re-fetched once outside the search. Parser: all texts of <=4 (thorough <=6) lines over 14 line kinds x 3 line endings.",
+            "Sequences of depth 3 (quick) / 4 (thorough) of forced block/allow refreshes x 16 answers (200 L1/L2/same/empty, connection error, 404, 500, 204, 206, body cut before the first byte / mid-line / at a line boundary / after the last line, HTML, NUL on line 1 / line N), scheduled refreshes 25 h / 1 h later x answer pairs, set_url edits whose download fails in 5 ways, local-file changes and restart, on one HTTP block list, one local-file block list and one HTTP allow list; after every step file bytes, inode, rules_count and CheckHost verdicts of 13 probes are compared with the model and the stored file is re-parsed. A list of more than 64 MiB is refreshed and re-fetched once outside the search. Parser: all texts of <=4 (thorough <=6) lines over 14 line kinds x 3 line endings.",
             "a successful refresh is expected to bring its rules into force (the statement says so only implicitly); unreadable local file is modelled as a directory (harness runs as root).",
             "DESIGN.md §4 C15", "E3+E1"),
     "C16": ("exploration",
@@ -98,7 +98,7 @@ CHECKS = {
             "DESIGN.md §4 C16", "E1-stateless"),
     "C17": ("exploration",
             "bounded exhaustive enumeration of (pattern list x location spelling x entry point) on the real handlers and refresh paths with canary files",
-            "13 pattern lists x 13 targets x dot-dot routes x <=1 (quick) / <=2 (thorough) spelling departures (segment insertions, percent-encoding, suffixes, relative and scheme prefixes) x 8 entry points (add, add after another list of the same directory was added, set-url, two-step set-url, forced and periodic refresh with the URL already configured, each of the two also with contents stored from an earlier fetch) x block/allow registry; canary content may show up (rules count, stored file, response body, probe verdict) only if the location is absolute and filepath.Match(p, filepath.Clean(loc)) holds for a configured pattern.",
+            "14 pattern lists x 13 targets (plus locations inside the instance's data directory and a named pipe outside the patterns that a refresh must not open) x dot-dot routes x <=1 (quick) / <=2 (thorough) spelling departures (segment insertions, percent-encoding, suffixes, relative and scheme prefixes) x 8 entry points (add, add after another list of the same directory was added, set-url, two-step set-url, forced and periodic refresh with the URL already configured, each of the two also with contents stored from an earlier fetch) x block/allow registry; canary content may show up (rules count, stored file, response body, probe verdict) only if the location is absolute and filepath.Match(p, filepath.Clean(loc)) holds for a configured pattern.",
             "filepath.Clean/Match are the reference; symlink-free tree; only the 'only if' direction is demanded.",
             "DESIGN.md §4 C17", "E1-stateless"),
     "C18": ("exploration",
